@@ -2,6 +2,7 @@
 (the console's reaction to each line is loaded when the line is written), a virtual clock patched into every tbot
 module that looks at the time, fragmentation generators, and rendering of stages as Coq terms for Session.v."""
 import contextlib
+import io as _io
 
 import tbot
 import tbot.log
@@ -61,7 +62,8 @@ def quiet_log():
     saved = (tbot.log.VERBOSITY, tbot.log.LOGFILE)
     tbot.log.VERBOSITY = tbot.log.Verbosity.QUIET
     try:
-        yield
+        with contextlib.redirect_stdout(_io.StringIO()):
+            yield
     finally:
         tbot.log.VERBOSITY, tbot.log.LOGFILE = saved
 
